@@ -43,7 +43,8 @@ def prove(tier, seed):
     planted = selfcheck.planted("C03", tier, S)
     sc = selfcheck.standard(records, names)
     sc["planted_bugs_all_refuted"] = {"ok": planted["tried"] == planted["refuted"], "detail": planted}
-    return dict(records=records, functions=S.info(names + ["permute_systems", "swap"]), instances=len(tasks), planted=planted, selfchecks=sc, wall=wall)
+    aux = IP.crosscheck_cases(S, seed, 30 if tier == "thorough" else 12)
+    return dict(aux_cases=aux, records=records, functions=S.info(names + ["permute_systems", "swap"]), instances=len(tasks), planted=planted, selfchecks=sc, wall=wall)
 
 
 def cases(tier, seed):
